@@ -47,24 +47,23 @@ example : parse [60, 97, 62, 10, 60] = .err 2 2 .eof := by rfl
 
 /-- Comments are white space: `skipSpace` is the one place where the tokenizer skips white space
     (it runs in front of every token, in front of and between processing instructions, and as
-    look-ahead in element content).  In front of a complete comment `<!--body-->` (body as in
-    XML 1.0: no `--`, not ending in `-`; any other bytes incl. line breaks, `>` and `<`), at any
-    position of any text, it behaves exactly like its own outer loop continued behind the comment
-    (`commentEnd` := that position), and the line bookkeeping of that position is right. -/
+    look-ahead in element content).  In front of a complete comment `<!--body-->` (any body in
+    which no `-->` begins, `commentBody`: all XML comments, but also bodies with `--`, line breaks,
+    `<`, `>` …), at any position of any text, it behaves exactly like its own outer loop continued
+    behind the comment (`commentEnd` := that position), and the line bookkeeping of that position
+    is right. -/
 theorem comments_are_whitespace (t : Bytes) (p : Pos) (body rest : Bytes)
     (h : t.drop p.pos = [60, 33, 45, 45] ++ (body ++ ([45, 45, 62] ++ rest))) (hb : commentBody body) :
     ∃ q : Pos, q.pos = p.pos + 4 + body.length + 3 ∧ (PosOK t p → PosOK t q) ∧
       skipSpace t p = skipLoop t (t.length + 2) false q (some q) :=
   skipSpace_comment t p body rest h hb
 
-/-- non-vacuity: the body ` a-b\n>- c` is a comment body, and `<!--x-->y` meets the hypothesis -/
-example : commentBody [32, 97, 45, 98, 10, 62, 45, 32, 99] := by
-  intro i hi h45
-  have : i = 2 ∨ i = 6 := by
-    simp at hi
-    have h : i = 0 ∨ i = 1 ∨ i = 2 ∨ i = 3 ∨ i = 4 ∨ i = 5 ∨ i = 6 ∨ i = 7 ∨ i = 8 := by omega
-    rcases h with rfl | rfl | rfl | rfl | rfl | rfl | rfl | rfl | rfl <;> simp_all
-  rcases this with rfl | rfl <;> decide
+/-- non-vacuity: the body ` a--\n>-` (with `--` inside and `-` at the end) is a comment body -/
+example : commentBody [32, 97, 45, 45, 10, 62, 45] := by
+  intro i hi
+  simp at hi
+  have h : i = 0 ∨ i = 1 ∨ i = 2 ∨ i = 3 ∨ i = 4 ∨ i = 5 ∨ i = 6 := by omega
+  rcases h with rfl | rfl | rfl | rfl | rfl | rfl | rfl <;> decide
 
 /-- Processing instructions before the root element: in front of `<?body?>` — body without `<`
     and without `?>`, any other bytes incl. lone `?` and line breaks, e.g. the
